@@ -16,7 +16,8 @@ in : `narrow <V> <cond> <0|1>`            → the narrowed type (s-expression)
      `truthy <o>` | `len <o>`             → `0|1` | `n|-`
 out: one line per input line; `bad-op` if unparseable.
 conds: (isinst c…) (issub c…) (is O) (isnot O) (eq O) (ne O) (in O) (notin O) truthy (len op n) (lenrev op n)
-       (typeis T) (typeguard T) (mclass c) (ainst c) (ais O);  bconds: cond | (not B) | (and B…) | (or B…)
+       (typeis T) (typeguard T) (mclass c) (ainst c) (ais O);  bconds: cond | (other cond) | (opq i) | (not B) | (and B…) | (or B…)
+     `checkbe <V> <bcond> <0|1> <o> <o_other> (<bit>…)` = `checkb` in an environment
 pats : (msingle O) (mvalue O) (mclass c) mwild (mor P…)
 -/
 open Pya Pya.C02
@@ -53,6 +54,8 @@ def toCond : Sexp → Option Cond
 
 mutual
 def toBCond : Sexp → Option BCond
+  | .node [.atom "other", c] => (toCond c).map .other
+  | .node [.atom "opq", .atom i] => i.toNat?.map .opaque
   | .node [.atom "not", b] => (toBCond b).map .not
   | .node (.atom "and" :: bs) => (toBConds bs).map .and
   | .node (.atom "or" :: bs) => (toBConds bs).map .or
@@ -103,9 +106,18 @@ def handle (line : String) : String :=
     match v.toTy, toBCond c, o.toObj with
     | some v, some b, some o =>
       let pol := p == "1"
-      b2s (mem tbl o v) ++ b2s (condOkB tbl b o) ++ b2s (holdsB tbl b o) ++
+      b2s (mem tbl o v) ++ b2s (condOkB tbl {} b o) ++ b2s (holdsB tbl {} b o) ++
         b2s (mem tbl o (narrowB tbl T v b pol)) ++ " D=" ++ showD (d02B tbl T v b o)
     | _, _, _ => "bad-op"
+  | some [.atom "checkbe", v, c, .atom p, o, oy, .node bits] =>
+    -- the same with an environment: the object of the other variable and the opaque bits
+    match v.toTy, toBCond c, o.toObj, oy.toObj with
+    | some v, some b, some o, some oy =>
+      let pol := p == "1"
+      let ρ : Env := { other := oy, bits := bits.map fun s => match s with | .atom "1" => true | _ => false }
+      b2s (mem tbl o v) ++ b2s (condOkB tbl ρ b o) ++ b2s (holdsB tbl ρ b o) ++
+        b2s (mem tbl o (narrowB tbl T v b pol)) ++ " D=" ++ showD (d02B tbl T v b o)
+    | _, _, _, _ => "bad-op"
   | some [.atom "match", v, .node ps, .atom i] =>
     match v.toTy, toPats ps, i.toNat? with
     | some v, some ps, some i => (matchBody tbl T v ps i).show
